@@ -264,5 +264,40 @@ theorem parse_X (hx : XLaws env.ops inp Pend Good) (hside : RelexSide env.tbl L 
       ∀ data, PX0 env L TT P S Pend Good (inp.drop k ++ data) (Parser.parse env inp last p).1) :=
   parseLoop_X hx hside last _ p (Or.inl h)
 
+
+/-- one run of the parsing loop from the invariant: no error at a `U2` site (`Err.internal` is still
+visible at this level) -/
+theorem run_X (hx : XLaws env.ops inp Pend Good) (hside : RelexSide env.tbl L TT P S) (last : Bool)
+    (p : Parser κ) (h : PX1 env L TT P S Pend Good inp p) (e : Err)
+    (he : (runLoop env inp (defaultFuel inp) (p.machine last)).2 = .err e) : ¬ U2err e := by
+  cases hd : p.directive with
+  | scan =>
+    have h0 : PX0 env L TT P S Pend Good inp p := by
+      rcases h with h | ⟨h, _⟩
+      · exact h
+      · rw [hd] at h; cases h
+    simp only [PX0, hd] at h0
+    obtain ⟨hsa, hg, hi⟩ := h0
+    have hm : p.machine last = ⟨{ p.scanC with isLast := last }, .scanner p.scanR, p.x⟩ := by
+      simp [Parser.machine, hd]
+    have h2 := runLoop_walk (scan_phinv hx) hside.phase (defaultFuel inp)
+      (⟨{ p.scanC with isLast := last }, .scanner p.scanR, p.x⟩ : M κ) ⟨rfl, hg, hi, hsa.lab.pend⟩
+    rw [hm] at he
+    unfold LoopPost at h2
+    rw [he] at h2
+    exact h2
+  | lex =>
+    have hm : p.machine last = ⟨{ p.lexC with isLast := last }, .lexer p.lexR, p.x⟩ := by
+      simp [Parser.machine, hd]
+    have hloop : LoopPost P (LexX Pend Good) (LexJ Pend Good) (runLoop env inp (defaultFuel inp) (p.machine last)) := by
+      rcases h with h | ⟨_, h⟩
+      · simp only [PX0, hd] at h
+        rw [hm]
+        exact runLoop_walk (lex_phinv hx) hside.phase _ _ ((lex_phinv hx).frame _ _ _ h.1)
+      · exact headStart_run hx hside p last hd h
+    unfold LoopPost at hloop
+    rw [he] at hloop
+    exact hloop
+
 end
 end LolHtml.Model
